@@ -12,6 +12,7 @@ def run(ver):
                     "invariants PositionLaw WholeChunks RefusedIffNoFit")
     core.replay_cases(ver, binp, res["out_path"], wd, "mc_c13")
     core.validate_traces(ver, binp, "c13", "Trace_C13", wd, gen_args=["4000"])
+    core.run_tlapm(ver, "SinksProof", wd, "the position law of the length abstraction of a bounded sink holds for every capacity and every sequence of writes (unbounded)")
     ver.assumptions += ["TLC evaluates the TLA+ operators correctly",
                         "the reference bytes of a value are those the same encoder writes into a Vec (sink independence); their correctness is C03's subject",
                         "canaries: 16 bytes either side of borrowed slices; owned sinks (array, boxed slice) are checked for untouched filler beyond the position",
